@@ -541,3 +541,201 @@ Proof.
     reflexivity.
   - cbn [nth_error] in H. cbn [firstn length app Nat.sub set_nth]. rewrite (IH j sv H). reflexivity.
 Qed.
+
+(* ---------------------------------------------------------------- the loop over the rows *)
+(* entry assignments the round trip is claimed for: one entry per row; a filled entry sits on a leaf
+   row (no "[]") and its value round-trips through the reader that row selects *)
+Definition entries_rt_ok (tbl : ktable) (e : entries) : Prop :=
+  length e = length tbl /\
+  forall j sv, nth_error e j = Some (Some sv) ->
+    exists k raw, nth_error tbl j = Some (N.of_nat j, k) /\ row_kind tbl j k = Some (LLeaf raw) /\ value_rt raw sv.
+
+Definition pkey (prev : option bytes) : bytes := match prev with Some kp => kp | None => [] end.
+
+Definition LoopInv (e : entries) (j : nat) (prev : option bytes) (W : list (N * bool)) (R : smst) : Prop :=
+  SimSt (pkey prev) W R /\ (prev = None -> W = []) /\ (s_cursor R <= j)%nat /\
+  s_ents R = firstn j e ++ repeat None (length e - j).
+
+Section Loop.
+Variables (tbl : ktable) (e : entries).
+Hypothesis Ht : table_ok tbl = true.
+Hypothesis He : entries_rt_ok tbl e.
+
+Lemma rows_sim : forall tl j prev W out R,
+  skipn j tbl = tl -> (j <= length tbl)%nat -> idx_pos_ok tl (N.of_nat j) = true -> rows_ok tbl tl j = true ->
+  LoopInv e j prev W R ->
+  exists prev' W' w n R', sm_write_loop tl e prev W out = WOk W' (out ++ w) /\
+    Run tbl n R R' w /\ (n <= length w)%nat /\ LoopInv e (length tbl) prev' W' R'.
+Proof.
+  destruct He as [Hel Hev].
+  induction tl as [|[idx k] tl IH]; intros j prev W out R Hsk Hjle Hidx Hrows Hinv.
+  - exists prev, W, [], O, R. cbn [sm_write_loop]. rewrite app_nil_r.
+    split; [reflexivity|]. split; [apply Run_refl|]. split; [cbn; lia|].
+    assert (Hj : (length tbl <= j)%nat).
+    { destruct (Nat.le_gt_cases (length tbl) j) as [|Hlt]; [assumption|].
+      assert (length (skipn j tbl) = (length tbl - j)%nat) by apply skipn_length. rewrite Hsk in H. cbn in H. lia. }
+    destruct Hinv as (A & B & C & D). split; [exact A|]. split; [exact B|]. split; [lia|].
+    rewrite D. rewrite <- Hel. rewrite !firstn_all2 by lia. replace (length e - j)%nat with O by lia.
+    rewrite Nat.sub_diag. reflexivity.
+  - destruct (skipn_cons_S _ _ _ _ Hsk) as [Hsk' Hrow].
+    cbn [idx_pos_ok] in Hidx. apply andb_true_iff in Hidx. destruct Hidx as [Hi Hidx]. apply N.eqb_eq in Hi. subst idx.
+    cbn [rows_ok] in Hrows. apply andb_true_iff in Hrows. destruct Hrows as [Hrok Hrows].
+    replace (N.of_nat j + 1) with (N.of_nat (S j)) in Hidx by lia.
+    assert (Hjl : (j < length tbl)%nat) by (apply nth_error_Some; congruence).
+    destruct (table_ok_idx tbl Ht _ _ _ Hrow) as [_ Hk].
+    cbn [sm_write_loop]. rewrite Nat2N.id.
+    destruct (nth_error e j) as [[sv|]|] eqn:Eej; [| |apply nth_error_None in Eej; lia].
+    2:{ (* empty entry: the writer skips the row *)
+      apply (IH (S j) prev W out R Hsk' Hjl Hidx Hrows).
+      destruct Hinv as (A & B & C & D). split; [exact A|]. split; [exact B|]. split; [lia|].
+      rewrite D. apply ents_absent, Eej. }
+    destruct (Hev j sv Eej) as (k0 & raw & Hrow0 & Hkind & Hv). rewrite Hrow in Hrow0. inversion Hrow0; subst k0. clear Hrow0.
+    destruct Hinv as (HS & Hnone & Hcur & Hents).
+    destruct (SimSt_top _ _ _ HS) as (Htk & Htop & _).
+    (* base_size *)
+    set (nk := match W with (n, _) :: _ => n | [] => 0 end). change nk with (top W) in *.
+    set (bs := count_base (firstn (N.to_nat (top W)) (pad_key k)) (firstn (N.to_nat (top W)) (pad_key (pkey prev)))).
+    assert (Ebs : match prev with
+                  | Some p => Some (count_base (firstn (N.to_nat (top W)) (pad_key k)) (firstn (N.to_nat (top W)) (pad_key p)))
+                  | None => if top W =? 0 then Some 0 else None
+                  end = Some bs).
+    { destruct prev as [p|]; [reflexivity|]. pose proof (Hnone eq_refl) as HW. subst W. reflexivity. }
+    rewrite Ebs.
+    destruct (pop_sim tbl (pkey prev) W R bs out HS) as (m & R1 & Hm & Epop & Hrun1 & HS1 & Ht1 & Hc1 & He1).
+    rewrite Epop.
+    assert (HSk : SimSt k (skipn m W) R1).
+    { eapply SimSt_transfer; [exact HS1|exact Ht1|]. intros i Hi.
+      apply (common_prefix k (pkey prev) (top W) i); [lia|]. fold bs. lia. }
+    set (W1 := skipn m W) in *.
+    assert (Hkb : top W1 <= 15) by (destruct (SimSt_top _ _ _ HSk) as (_ & H & _); exact H).
+    assert (Hlev : level_start k (top W1) = true).
+    { destruct HSk as (_ & _ & _ & _ & _ & Hl). destruct W1 as [|[n b] W1']; [reflexivity|]. inversion Hl; subst. assumption. }
+    pose proof (row_ok_spec tbl j k (LLeaf raw) (top W1) Hrok Hkind Hkb Hlev) as Hwalk.
+    destruct (walk_sim tbl j k raw sv Hk Hrow Hv walk_fuel (N.to_nat max_key + 2) W1 (top W1) (out ++ repeat ch_e m) R1
+                (firstn (S j) e ++ repeat None (length e - S j)) Hwalk HSk eq_refl)
+      as (W2 & w2 & n2 & R2 & Ew & Hrun2 & Hn2 & HS2 & Hc2 & He2);
+      [lia|rewrite max_key_val; lia|rewrite He1, Hents; apply ents_present, Eej|].
+    replace (match W1 with (n, _) :: _ => n | [] => 0 end) with (top W1) by reflexivity.
+    rewrite Ew.
+    destruct (IH (S j) (Some k) W2 ((out ++ repeat ch_e m) ++ w2) R2 Hsk' Hjl Hidx Hrows)
+      as (prev' & W' & w & n & R' & Ew' & Hrun & Hn & Hinv').
+    { split; [exact HS2|]. split; [discriminate|]. split; [lia|exact He2]. }
+    exists prev', W', ((repeat ch_e m ++ w2) ++ w), ((m + n2) + n)%nat, R'.
+    split; [rewrite Ew'; f_equal; rewrite <- !app_assoc; reflexivity|].
+    split; [eapply Run_trans; [eapply Run_trans; [exact Hrun1|exact Hrun2]|exact Hrun]|].
+    split; [rewrite !app_length, repeat_length; lia|exact Hinv'].
+Qed.
+End Loop.
+
+(* ---------------------------------------------------------------- the round trip *)
+Lemma repeat_snoc {A} (a : A) n : repeat a (S n) = repeat a n ++ [a].
+Proof. induction n as [|n IH]; [reflexivity|]. cbn [repeat app] in *. rewrite <- IH. reflexivity. Qed.
+
+Lemma init_sim tbl : SimSt [] [] (init_st (empty_entries tbl)).
+Proof.
+  unfold SimSt, init_st, init_buf. cbn [s_cur s_stack map top]. rewrite repeat_length, key_buf_len_val.
+  split; [reflexivity|]. split; [reflexivity|]. split; [constructor|]. split; [exact I|]. split; [|constructor].
+  intros i Hi. cbn in Hi. lia.
+Qed.
+
+Theorem static_map_roundtrip tbl e r :
+  table_rt_ok tbl = true -> entries_rt_ok tbl e ->
+  exists out, sm_write tbl e = WOk [] out /\
+    (bounded (out ++ r) -> sm_read tbl (out ++ r) = Ok e r).
+Proof.
+  intros Hrt He. unfold table_rt_ok in Hrt. apply andb_true_iff in Hrt. destruct Hrt as [Hrt Hrows].
+  apply andb_true_iff in Hrt. destruct Hrt as [Ht Hidx]. pose proof He as [Hel _].
+  destruct (rows_sim tbl e Ht He tbl O None [] [ch_d] (init_st (empty_entries tbl)) eq_refl ltac:(lia) Hidx Hrows)
+    as (prev' & W' & w & n & R' & Ew & Hrun & Hn & HS' & _ & _ & Hents).
+  { split; [apply init_sim|]. split; [reflexivity|]. split; [cbn; lia|].
+    cbn [init_st s_ents firstn app]. unfold empty_entries. rewrite Nat.sub_0_r, Hel. reflexivity. }
+  destruct (pop_sim tbl (pkey prev') W' R' 0 [] HS') as (m & R1 & Hm & _ & Hrun1 & HS1 & Ht1 & _ & He1).
+  assert (Hnil : skipn m W' = []).
+  { destruct HS1 as (_ & _ & _ & Hok & _). destruct (skipn m W') as [|[x b] t]; [reflexivity|].
+    cbn [map fst stack_ok top] in *. lia. }
+  assert (Hml : m = length W').
+  { pose proof (skipn_length m W') as L. rewrite Hnil in L. cbn in L. lia. }
+  exists (([ch_d] ++ w) ++ repeat ch_e (S (length W'))).
+  split; [unfold sm_write; rewrite Ew; reflexivity|].
+  intros Hb. unfold sm_read, sm_read_into. cbn [app]. change (ch_d =? ch_d) with true. cbv iota.
+  rewrite <- Hml, repeat_snoc.
+  set (l' := (w ++ repeat ch_e m ++ [ch_e]) ++ r).
+  assert (El : l' = w ++ (repeat ch_e m ++ (ch_e :: r))).
+  { unfold l'. rewrite <- !app_assoc. reflexivity. }
+  assert (Hbl : bounded l').
+  { unfold bounded in *. revert Hb. rewrite <- Hml, repeat_snoc. cbn [app length]. fold l'. lia. }
+  assert (Hlen : (n + m < length l')%nat).
+  { rewrite El, !app_length, repeat_length. cbn [length]. lia. }
+  replace (S (length l')) with (n + (m + S (length l' - n - m)))%nat by lia.
+  rewrite El. rewrite Hrun by (rewrite <- El; exact Hbl).
+  rewrite Hrun1 by (rewrite El in Hbl; eapply bounded_app_r; exact Hbl).
+  cbn [sm_loop]. change (ch_e =? ch_e) with true. cbv iota.
+  destruct HS1 as (_ & Hstk & _). rewrite Hnil in Hstk. cbn [map] in Hstk. rewrite Hstk.
+  rewrite He1, Hents, <- Hel, firstn_all, Nat.sub_diag. cbn [repeat]. rewrite app_nil_r. reflexivity.
+Qed.
+
+(* ---------------------------------------------------------------- per-kind value lemmas *)
+(* plain rows: every well-formed tree below the depth limit (the base round trip enc_dec_c) *)
+Lemma value_rt_plain v : wf v -> height v < depth_limit_c -> value_rt None (SObj v false).
+Proof.
+  intros Hw Hh rest Hb. unfold read_value. cbn [enc_sval] in *. rewrite enc_dec_c by assumption. reflexivity.
+Qed.
+
+(* "*S" rows: every byte string a raw_string can hold (uint32 size) *)
+Lemma value_rt_string b : N.of_nat (length b) < two32 -> value_rt (Some RawS) (SRaw RawS b).
+Proof.
+  intros Hlb rest Hb. cbn [enc_sval] in *. unfold read_value, raw_c.
+  pose proof (c_string_enc b rest Hlb Hb) as Hc.
+  destruct (enc_str_head b) as (c & tl & E & Hd).
+  assert (Hsk : skip_c (enc_str b ++ rest) = Ok tt rest).
+  { revert Hc. rewrite E. cbn [app]. intros Hc. unfold skip_c. cbn [skip_loop].
+    destruct (digit_not_tag c Hd) as (H1 & H2 & H3 & H4). rewrite H4, H1, H2, H3. cbn [orb]. rewrite Hc. reflexivity. }
+  rewrite Hsk.
+  assert (Hf : firstn (length (enc_str b ++ rest) - length rest) (enc_str b ++ rest) = enc_str b) by apply firstn_app_exact.
+  rewrite Hf.
+  assert (Hsz : (2 <=? N.of_nat (length (enc_str b))) && is_digit (hd 0 (enc_str b)) = true).
+  { apply andb_true_iff. split; [|rewrite E; cbn [hd]; exact Hd]. apply N.leb_le.
+    unfold enc_str. rewrite app_length. cbn [length].
+    destruct (dec_of_N_head (N.of_nat (length b) mod two32)) as (c' & ds & E' & _). rewrite E'. cbn [length]. lia. }
+  rewrite Hsz.
+  assert (Hac : after_colon (enc_str b) = Some b).
+  { unfold enc_str. rewrite N.mod_small by exact Hlb. rewrite Nat2N.id, firstn_all.
+    pose proof (dec_of_N_digits (N.of_nat (length b))) as Hds.
+    induction Hds as [|d ds Hdd _ IHd]; cbn [app after_colon].
+    - change (ch_colon =? ch_colon) with true. reflexivity.
+    - assert (d =? ch_colon = false) by (apply is_digit_spec in Hdd; apply N.eqb_neq; unfold ch_colon; lia).
+      rewrite H. exact IHd. }
+  rewrite Hac. reflexivity.
+Qed.
+
+(* "*" rows: the encoding of any well-formed tree nested below the skip reader's stack *)
+Lemma value_rt_any v : wf v -> height v < skip_stack_limit -> value_rt (Some RawAny) (SRaw RawAny (enc v)).
+Proof.
+  intros Hw Hh rest Hb. cbn [enc_sval] in *. unfold read_value, raw_c. rewrite enc_skip by assumption.
+  rewrite firstn_app_exact. reflexivity.
+Qed.
+
+(* "*L" / "*M" rows: the inside of an encoded list / dictionary *)
+Lemma value_rt_list vs : wf (VList vs) -> height (VList vs) < skip_stack_limit ->
+  value_rt (Some RawL) (SRaw RawL (flat_map enc vs)).
+Proof.
+  intros Hw Hh rest Hb. cbn [enc_sval] in *. unfold read_value, raw_c.
+  change (ch_l :: flat_map enc vs ++ [ch_e]) with (enc (VList vs)) in *.
+  rewrite enc_skip by assumption. rewrite firstn_app_exact. cbn [enc hd].
+  change (ch_l =? ch_l) with true. rewrite andb_true_r.
+  assert (Hsz : 2 <=? N.of_nat (length (ch_l :: flat_map enc vs ++ [ch_e])) = true)
+    by (apply N.leb_le; cbn [length]; rewrite app_length; cbn [length]; lia).
+  rewrite Hsz. unfold strip_ends. cbn [tl]. rewrite removelast_last. reflexivity.
+Qed.
+
+Lemma value_rt_map m : wf (VMap m) -> height (VMap m) < skip_stack_limit ->
+  value_rt (Some RawM) (SRaw RawM (flat_map (fun kv => enc_str (fst kv) ++ enc (snd kv)) m)).
+Proof.
+  intros Hw Hh rest Hb. cbn [enc_sval] in *. unfold read_value, raw_c.
+  change (ch_d :: flat_map (fun kv => enc_str (fst kv) ++ enc (snd kv)) m ++ [ch_e]) with (enc (VMap m)) in *.
+  rewrite enc_skip by assumption. rewrite firstn_app_exact. cbn [enc hd].
+  change (ch_d =? ch_d) with true. rewrite andb_true_r.
+  assert (Hsz : 2 <=? N.of_nat (length (ch_d :: flat_map (fun kv => enc_str (fst kv) ++ enc (snd kv)) m ++ [ch_e])) = true)
+    by (apply N.leb_le; cbn [length]; rewrite app_length; cbn [length]; lia).
+  rewrite Hsz. unfold strip_ends. cbn [tl]. rewrite removelast_last. reflexivity.
+Qed.
